@@ -317,6 +317,35 @@ class ReadPathRun:
             return False
         return True
 
+    def do_discard(self):
+        """discard_messages(): whatever it throws away or trips over, the client's filter and framing must be
+        what they were afterwards (judged by the reads that follow)"""
+        from pyrtma.exceptions import ConnectionLost, UnknownMessageType, InvalidMessageDefinition
+        c = self.client
+        res = self.res
+        self.t("discard_messages()")
+        outcome = "ok"
+        try:
+            c.discard_messages(timeout=self.ch.choose("dm.timeout", [1, 0.01, 5]))
+        except ConnectionLost:
+            outcome = "lost"
+            if self.closed_kind is None:
+                res.add("C08", "spurious_connection_lost", "discard_messages: ConnectionLost although the server never closed")
+            elif c.connected:
+                res.add("C08", "still_connected", f"discard_messages: ConnectionLost was raised ({self.closed_kind}) but "
+                                                  f"the client still says connected",
+                        sig="still_connected:" + str(self.closed_kind))
+        except (UnknownMessageType, InvalidMessageDefinition):
+            outcome = "decode_error"
+        res.probes["discard_messages_" + outcome] += 1
+        if outcome != "lost":
+            ends = {0} | {f.end for f in self.frames}
+            truncated_by_close = (outcome == "decode_error" and self.closed_kind is not None
+                                  and self.consumed >= self.closed_at)
+            if self.consumed not in ends and not truncated_by_close:
+                res.add("C08", "misaligned", f"discard_messages() stopped in the middle of a frame (consumed up to {self.consumed})")
+        return outcome
+
     def do_read(self, poll_only=False):
         from pyrtma.exceptions import (ConnectionLost, UnknownMessageType, InvalidMessageDefinition,
                                        NotConnectedError)
@@ -552,7 +581,7 @@ class ReadPathRun:
                     keep_total = last.start + f["offset"]
                     self.server_close(f["way"], keep=max(0, keep_total - self.consumed))
                 op = ch.weighted("op.kind", [(12, "feed"), (14, "read"), (4, "sub"), (2, "close"), (4, "arrive"), (2, "redefine"),
-                                             (1, "qlload")])
+                                             (1, "qlload"), (2, "discard")])
                 if self.closed_kind is not None and op in ("feed", "close"):
                     op = "read"
                 if op == "feed":
@@ -560,6 +589,9 @@ class ReadPathRun:
                         self.feed_one(f.get("kind") if forced_close is not None and len(self.frames) + 1 == forced_close else None)
                 elif op == "read":
                     if self.do_read() == "lost":
+                        lost = True
+                elif op == "discard":
+                    if self.do_discard() == "lost":
                         lost = True
                 elif op == "sub":
                     self.change_subscription()
